@@ -148,6 +148,7 @@ def override_menu(spec):
         items.append(("inits", [round(0.37 + 0.11 * j, 3) for j in range(n)] if kind == "alpha" else [round(1.17 + 0.09 * j, 3) for j in range(n)]))
         items.append(("bounds", [[-3.5, 4.25]] * n if kind == "alpha" else [[0.25 + 0.01 * j, 7.5] for j in range(n)]))
         items.append(("fixed", True))
+        items.append(("fixed", False))
         if d["constraint"] == "normal":
             items.append(("auxdata", [round(0.2 + 0.05 * j, 3) for j in range(n)] if kind == "alpha" else [round(1.1 + 0.03 * j, 3) for j in range(n)]))
             if kind in ("staterror", "lumi"):
@@ -156,7 +157,7 @@ def override_menu(spec):
             items.append(("auxdata", [round(30.0 + 7 * j, 2) for j in range(n)]))
             items.append(("factors", [round(41.0 + 5.5 * j, 2) for j in range(n)]))
         for k, v in items:
-            out.append((f"override:{name}.{k}", name, k, v))
+            out.append((f"override:{name}.{k}" + (f"={v}" if k == "fixed" else ""), name, k, v))
     return out
 
 
